@@ -132,4 +132,16 @@ def check(ctx: Ctx) -> str:
     from .c08 import r3_safe_repr
 
     r3_safe_repr(ctx, "R5")
+
+    ctx.rule("R6", "no memoisation by value equality on the path from a literal to the generated text: `True == 1 == 1.0` and `0 == False == 0.0` hash alike, a cache keyed by the constant hands one literal the text of another")
+    n_dec = 0
+    for mod in ("lexer", "parser", "nodes", "optimizer", "compiler", "nativetypes"):
+        m_ = repo.module(mod)
+        for fn_ in astq.all_funcdefs(m_.tree):
+            for d_ in fn_.decorator_list:
+                n_dec += 1
+                dt = ast.unparse(d_.func if isinstance(d_, ast.Call) else d_)
+                ctx.check(dt.split(".")[-1] not in ("lru_cache", "cache", "memoize"), f"memo:{mod}:{astq.qualname(fn_)}", f"{mod}:{astq.qualname(fn_)}", f"@{dt} on the literal-to-text path",
+                          f"{mod}.{astq.qualname(fn_)} is memoised with @{dt}: its cache key compares constants with == / hash, so `{{{{ true }}}}` followed by `{{{{ 1.0 }}}}` renders `True` twice (the finalize wrapper of the output folding is the typical place)", f"{m_.rel}:{fn_.lineno}")
+    ctx.floor("decorated functions on the compile path", n_dec, 10)
     return __doc__ or ""
